@@ -24,8 +24,8 @@ ASSUMPTIONS = [
 MIN_OBS = {"compared": 200, "elided_or_merged_Slice": 5, "elided_or_merged_Sort": 5, "elided_or_merged_Projection": 5, "elided_or_merged_Selection": 3}
 CFG = dict(
     engines=("it", "it2"),
-    ops=("calc", "proj", "sel", "dedup", "sort", "slice", "chain", "mat"),
-    weights={"slice": 1.6, "sort": 1.4, "proj": 1.2, "sel": 1.3},
+    ops=("calc", "proj", "sel", "dedup", "sort", "slice", "chain", "mat", "mark"),
+    weights={"slice": 1.6, "sort": 1.4, "proj": 1.2, "sel": 1.3, "mark": 0.4},
     xfer_prob=0.06,
     total_sort_prob=0.35,
 )
@@ -40,7 +40,13 @@ def budget(tier):
 def gen_case(rng, tier):
     cfg = gen.Cfg(**CFG, max_depth=2 if tier == "quick" or rng.random() < 0.6 else 3)
     g = gen.Gen(rng, cfg)
-    return gen.case_from(g, g.tree())
+    state = g.tree()
+    if rng.random() < 0.12:
+        # equal-but-distinct operands: the same program over leaves with the same name/columns/engine
+        state = gen.chain_with_name_twin(g, state, rng) or state
+        for _ in range(rng.randint(0, 2)):
+            state = g.unary(state, rng.choice(["sel", "slice", "sort", "dedup", "proj"])) or state
+    return gen.case_from(g, state)
 
 
 def run_case(case):
